@@ -71,6 +71,7 @@ type simRun struct {
 	rev     map[key.TargetID]bool
 	trace   []term.T
 	subbed  bool
+	preRan  bool // the BattleStart script was already run before the battle (insert-only script)
 	nevents int
 }
 
@@ -177,9 +178,29 @@ func (r *simRun) subscribe(eng engine.Engine) {
 		for _, id := range append(append([]key.TargetID{}, eng.Characters()...), eng.Enemies()...) {
 			eng.AddModifier(id, info.Modifier{Name: "verif_tick", Source: id, Duration: -1})
 		}
-		if i, ok := r.popSlot(&r.lBattle); ok {
+		if i, ok := r.popSlot(&r.lBattle); ok && !r.preRan {
 			r.execOps(r.script(i), 0, 0)
 		}
+	})
+	// A BattleStart script that only queues insert abilities is issued BEFORE the battle starts, when the
+	// characters have been added (content may queue from its constructor, a startup hook or a CharactersAdded
+	// listener).  Queueing is not observable and the model drains the queue for the first time after BattleStart,
+	// so the predicted trace is the same: startBattle must hand the pending inserts over to the first drain.
+	ev.CharactersAdded.Subscribe(func(e event.CharactersAdded) {
+		if len(r.lBattle) == 0 {
+			return
+		}
+		ops := r.script(r.lBattle[0])
+		if len(ops) == 0 {
+			return
+		}
+		for _, o := range ops {
+			if n, _ := term.Ctor(o); n != "SInsertAbility" {
+				return
+			}
+		}
+		r.preRan = true
+		r.execOps(ops, 0, 0)
 	})
 	ev.AttackStart.Subscribe(func(e event.AttackStart) {
 		if i, ok := r.popSlot(&r.lAtk); ok {
